@@ -106,7 +106,8 @@ def oracle(case: dict, recs: list[dict]) -> list[Failure]:
             elif unresolved >= 1:
                 period = {"kind": "cmd", "expected": list(a["outs"]),
                           "re": [safe_now] if (unresolved > 1 or error) else []}
-                unresolved = 0
+                # a Pause with a rejected argument raises in this tick and runs its body in the next one
+                unresolved = sum(1 for x in items if x.startswith("m.pause") and x.endswith(":x"))
             elif error:
                 period = {"kind": "error", "expected": list(a["outs"]), "re": []}   # an error pause
             else:
@@ -115,6 +116,9 @@ def oracle(case: dict, recs: list[dict]) -> list[Failure]:
             if op[0] == "tick" and unresolved > 0 and period is not None and period["kind"] in ("cmd", "error"):
                 period["kind"] = "cmd"
                 period["re"].append(list(a["outs"]))      # a Pause body ran while already paused
+                if unresolved > 1:                        # ... and another one after it
+                    period["re"].append([SAFES[j] if SAFES[j] is not None else a["outs"][j]
+                                         for j in range(len(SAFES))])
                 unresolved = 0
         elif a["paused"] and not b["paused"]:
             if same_run and period is not None and unresolved == 0:
